@@ -91,3 +91,22 @@ extern "C" void h_fmt_char(void) {
     std::vector<std::string> back = readFormattedCharArray(file_text(), NELEM, 31, ELSZ);
     CHECK(back.size() == data.size()); for (size_t i = 0; i < data.size(); ++i) CHECK(back[i] == data[i]);
 }
+// formatted DOUB / REAL arrays: the mantissa/exponent surgery of make_doub_string_ecl / make_real_string_ecl around snprintf, on concrete
+// values that reach every branch (both signs, two- and three-digit exponents, exponent sign, zero); read back to the printed precision
+extern "C" void h_fmt_doub(void) {
+    static const double vals[] = { 0.0, 1.0, -1.0, 0.5, -3.25, 123456.789, -7.25e-200, 7.25e-200, -1.5e150, 2.5e150, 9.999999999999e99, -9.999999999999e99, 1e-99, -1e-99, 1e100, -1e-100, 4.25e-5, -6.5e7 };
+    const long n = sizeof(vals) / sizeof(vals[0]);
+    std::vector<double> data(vals, vals + n);
+    EclOutput* out = make_writer(); out->write(std::string("DOUBARR"), data); out->flushStream();
+    CHECK((uint64_t) verif_memfile_size(1) == 31 + sizeOnDiskFormatted(n, DOUB, 8));
+    std::vector<double> back = readFormattedDoubArray(file_text(), n, 31);
+    CHECK(back.size() == data.size());
+    for (long i = 0; i < n; ++i) { const double d = back[i] - data[i], tol = 1e-13 * (data[i] < 0 ? -data[i] : data[i]); CHECK(d <= tol && -d <= tol); }
+    std::vector<float> fdata; for (double v : { 0.0, 1.0, -1.0, 0.5, -3.25, 123456.79, -7.25e-20, 7.25e20, -1.5e-30, 2.5e30, 4.25e-5 }) fdata.push_back((float) v);
+    verif_memfile_truncate(1, 0);
+    EclOutput* out2 = make_writer(); out2->write(std::string("REALARR"), fdata); out2->flushStream();
+    CHECK((uint64_t) verif_memfile_size(1) == 31 + sizeOnDiskFormatted((long) fdata.size(), REAL, 4));
+    std::vector<float> fback = readFormattedRealArray(file_text(), (long) fdata.size(), 31);
+    CHECK(fback.size() == fdata.size());
+    for (size_t i = 0; i < fdata.size(); ++i) { const double d = (double) fback[i] - (double) fdata[i], tol = 2e-7 * (fdata[i] < 0 ? -(double) fdata[i] : (double) fdata[i]); CHECK(d <= tol && -d <= tol); }
+}
